@@ -10,7 +10,18 @@
 (* not opened O_SYNC - the written but not yet durable content (dirty).    *)
 (*                                                                         *)
 (* One action per step of the code:                                        *)
-(*   WriteBegin/WriteEnd   piecewriter.Run -> piece.Data.Write             *)
+(*   WriteBegin/WriteSec/WriteEnd/WriteFail/FailHandled                    *)
+(*                         piecewriter.Run -> piece.Data.Write: one        *)
+(*                         storage write per FILE SECTION of the piece     *)
+(*                         (filesection.Piece.Write); any of them may fail *)
+(*                         (I/O error): cfg.werr = "first" - the write of  *)
+(*                         the piece ends with the error of the first      *)
+(*                         failing section (the code), "last" - only the   *)
+(*                         result of the last section is reported (a       *)
+(*                         design that is EXPECTED to fail: sensitivity of *)
+(*                         the obligations to the fault actions);          *)
+(*                         torrent_write.go: an error stops the torrent,   *)
+(*                         the piece is not marked                         *)
 (*   SetBit                torrent_write.go handlePieceWriteDone           *)
 (*   PersistBegin/Commit   session_stats.go updateStats (periodic),        *)
 (*                         torrent_stop.go / torrent_write.go /            *)
@@ -37,7 +48,7 @@
 (*             missing - the window between the creation of the file and   *)
 (*             that update remains.                                        *)
 (* Configuration is a variable that never changes (traces bring their own  *)
-(* geometry): cfg = [np, nf, fo (piece -> files), sync, design].           *)
+(* geometry): cfg = [np, nf, fo (piece -> files), sync, design, werr].     *)
 (***************************************************************************)
 EXTENDS Integers, FiniteSets, Sequences, TLC
 
@@ -48,12 +59,14 @@ VARIABLES cfg,
           phase,     \* "down","alloc","verify","run"
           aidx,      \* files opened by the running allocator (0 .. nf)
           almiss, alexist,    \* allocator.HasMissing / HasExisting
-          wr,        \* [Piece -> {"idle","writing","written"}]
+          wr,        \* [Piece -> {"idle","writing","written","failed"}]
+          sec,       \* [Piece -> 0 .. number of file sections] : sections of the running write attempted so far
+          wok,       \* [Piece -> BOOLEAN] : every attempted section of the running write reached its file
           memKnown, memBit,   \* t.bitfield (nil / set)
           dbKnown, dbBit,     \* resume record: key "bitfield"
           txn        \* [active, known, bits] : database update in flight
 
-vars == <<cfg, disk, dirty, exist, phase, aidx, almiss, alexist, wr, memKnown, memBit, dbKnown, dbBit, txn>>
+vars == <<cfg, disk, dirty, exist, phase, aidx, almiss, alexist, wr, sec, wok, sec, wok, memKnown, memBit, dbKnown, dbBit, txn>>
 
 Piece == 0 .. (cfg.np - 1)
 File  == 0 .. (cfg.nf - 1)
@@ -67,16 +80,18 @@ PiecesOf(F) == {p \in Piece : cfg.fo[p] \cap F # {}}
 I0(c) ==
     [ disk |-> [p \in 0 .. (c.np - 1) |-> "nil"],
       exist |-> [f \in 0 .. (c.nf - 1) |-> FALSE],
-      wr |-> [p \in 0 .. (c.np - 1) |-> "idle"] ]
+      wr |-> [p \in 0 .. (c.np - 1) |-> "idle"],
+      sec |-> [p \in 0 .. (c.np - 1) |-> 0],
+      wok |-> [p \in 0 .. (c.np - 1) |-> TRUE] ]
 
 InitWith(c) ==
     /\ cfg = c /\ disk = I0(c).disk /\ dirty = {} /\ exist = I0(c).exist /\ phase = "down" /\ aidx = 0
-    /\ almiss = FALSE /\ alexist = FALSE /\ wr = I0(c).wr /\ memKnown = FALSE /\ memBit = {}
+    /\ almiss = FALSE /\ alexist = FALSE /\ wr = I0(c).wr /\ sec = I0(c).sec /\ wok = I0(c).wok /\ memKnown = FALSE /\ memBit = {}
     /\ dbKnown = FALSE /\ dbBit = {} /\ txn = NoTxn
 
 ResetWith(c) ==
     /\ cfg' = c /\ disk' = I0(c).disk /\ dirty' = {} /\ exist' = I0(c).exist /\ phase' = "down" /\ aidx' = 0
-    /\ almiss' = FALSE /\ alexist' = FALSE /\ wr' = I0(c).wr /\ memKnown' = FALSE /\ memBit' = {}
+    /\ almiss' = FALSE /\ alexist' = FALSE /\ wr' = I0(c).wr /\ sec' = I0(c).sec /\ wok' = I0(c).wok /\ memKnown' = FALSE /\ memBit' = {}
     /\ dbKnown' = FALSE /\ dbBit' = {} /\ txn' = NoTxn
 
 \* --- process start: the resume record is loaded ------------------------------
@@ -84,14 +99,14 @@ Restart ==
     /\ phase = "down"
     /\ phase' = "alloc" /\ aidx' = 0 /\ almiss' = FALSE /\ alexist' = FALSE
     /\ memKnown' = dbKnown /\ memBit' = dbBit
-    /\ UNCHANGED <<cfg, disk, dirty, exist, wr, dbKnown, dbBit, txn>>
+    /\ UNCHANGED <<cfg, disk, dirty, exist, wr, sec, wok, dbKnown, dbBit, txn>>
 
 \* --- allocation ---------------------------------------------------------------
 \* "safe": before the first missing file is created, the bitfield is dropped durably (one transaction)
 AllocInvalidate ==
     /\ cfg.design = "safe" /\ phase = "alloc" /\ aidx < cfg.nf /\ ~exist[aidx] /\ (dbKnown \/ memKnown) /\ ~txn.active
     /\ memKnown' = FALSE /\ memBit' = {} /\ dbKnown' = FALSE /\ dbBit' = {}
-    /\ UNCHANGED <<cfg, disk, dirty, exist, phase, aidx, almiss, alexist, wr, txn>>
+    /\ UNCHANGED <<cfg, disk, dirty, exist, phase, aidx, almiss, alexist, wr, sec, wok, txn>>
 
 AllocOpen ==       \* storage.Open(file aidx): opens it, or creates it with zero content
     /\ phase = "alloc" /\ aidx < cfg.nf
@@ -99,7 +114,7 @@ AllocOpen ==       \* storage.Open(file aidx): opens it, or creates it with zero
     /\ IF exist[aidx] THEN alexist' = TRUE /\ UNCHANGED <<almiss, exist>>
        ELSE almiss' = TRUE /\ exist' = [exist EXCEPT ![aidx] = TRUE] /\ UNCHANGED alexist
     /\ aidx' = aidx + 1
-    /\ UNCHANGED <<cfg, disk, dirty, phase, wr, memKnown, memBit, dbKnown, dbBit, txn>>
+    /\ UNCHANGED <<cfg, disk, dirty, phase, wr, sec, wok, memKnown, memBit, dbKnown, dbBit, txn>>
 
 AllocDone ==       \* handleAllocationDone: trust the bits / start empty / verify
     /\ phase = "alloc" /\ aidx = cfg.nf
@@ -113,55 +128,77 @@ AllocDone ==       \* handleAllocationDone: trust the bits / start empty / verif
             /\ IF cfg.design = "patched" /\ memKnown
                THEN ~txn.active /\ memKnown' = FALSE /\ memBit' = {} /\ dbKnown' = FALSE /\ dbBit' = {}
                ELSE UNCHANGED <<memKnown, memBit, dbKnown, dbBit>>
-    /\ UNCHANGED <<cfg, disk, dirty, exist, aidx, almiss, alexist, wr, txn>>
+    /\ UNCHANGED <<cfg, disk, dirty, exist, aidx, almiss, alexist, wr, sec, wok, txn>>
 
 VerifyDone ==      \* the verifier's bitfield replaces t.bitfield (and is written, see PersistBegin)
     /\ phase = "verify"
     /\ phase' = "run" /\ memKnown' = TRUE /\ memBit' = {p \in Piece : View(p) = "good"}
-    /\ UNCHANGED <<cfg, disk, dirty, exist, aidx, almiss, alexist, wr, dbKnown, dbBit, txn>>
+    /\ UNCHANGED <<cfg, disk, dirty, exist, aidx, almiss, alexist, wr, sec, wok, dbKnown, dbBit, txn>>
 
 \* --- download --------------------------------------------------------------------
 Sync(p) == cfg.sync
 
+NSec(p) == Cardinality(cfg.fo[p])      \* a piece is written with one storage write per file it overlaps
+
 WriteBegin(p) ==   \* the piece writer got a complete, hash-checked piece
     /\ phase = "run" /\ memKnown /\ p \notin memBit /\ wr[p] = "idle"
-    /\ wr' = [wr EXCEPT ![p] = "writing"]
+    /\ wr' = [wr EXCEPT ![p] = "writing"] /\ sec' = [sec EXCEPT ![p] = 0] /\ wok' = [wok EXCEPT ![p] = TRUE]
     /\ IF Sync(p) THEN disk' = [disk EXCEPT ![p] = "partial"] /\ dirty' = dirty \ {p}
                   ELSE UNCHANGED <<disk, dirty>>
     /\ UNCHANGED <<cfg, exist, phase, aidx, almiss, alexist, memKnown, memBit, dbKnown, dbBit, txn>>
 
+WriteSec(p) ==     \* the storage write of the next file section returned without error
+    /\ wr[p] = "writing" /\ sec[p] < NSec(p)
+    /\ sec' = [sec EXCEPT ![p] = sec[p] + 1]
+    /\ UNCHANGED <<cfg, disk, dirty, exist, phase, aidx, almiss, alexist, wr, wok, memKnown, memBit, dbKnown, dbBit, txn>>
+
+WriteFail(p) ==    \* the storage write of the next file section fails (at any section position)
+    /\ wr[p] = "writing" /\ sec[p] < NSec(p)
+    /\ IF cfg.werr = "first" \/ sec[p] = NSec(p) - 1
+       THEN wr' = [wr EXCEPT ![p] = "failed"] /\ sec' = [sec EXCEPT ![p] = 0] /\ wok' = [wok EXCEPT ![p] = TRUE]   \* Piece.Write returns the error
+       ELSE sec' = [sec EXCEPT ![p] = sec[p] + 1] /\ wok' = [wok EXCEPT ![p] = FALSE] /\ UNCHANGED wr  \* "last": forgotten
+    /\ UNCHANGED <<cfg, disk, dirty, exist, phase, aidx, almiss, alexist, memKnown, memBit, dbKnown, dbBit, txn>>
+
 WriteEnd(p) ==     \* Write returned without error
-    /\ wr[p] = "writing"
+    /\ wr[p] = "writing" /\ sec[p] = NSec(p)
     /\ wr' = [wr EXCEPT ![p] = "written"]
-    /\ IF Sync(p) THEN disk' = [disk EXCEPT ![p] = "good"] /\ UNCHANGED dirty
+    /\ IF ~wok[p] THEN UNCHANGED <<disk, dirty>>          \* a section never reached its file: the content stays partial
+       ELSE IF Sync(p) THEN disk' = [disk EXCEPT ![p] = "good"] /\ UNCHANGED dirty
                   ELSE dirty' = dirty \cup {p} /\ UNCHANGED disk
+    /\ sec' = [sec EXCEPT ![p] = 0] /\ wok' = [wok EXCEPT ![p] = TRUE]
     /\ UNCHANGED <<cfg, exist, phase, aidx, almiss, alexist, memKnown, memBit, dbKnown, dbBit, txn>>
+
+FailHandled(p) ==  \* handlePieceWriteDone with pw.Error: the torrent is stopped, the piece is NOT marked (stop persists the
+                   \* bitfield as it is - PersistBegin; a later Start re-opens the existing files and keeps the bitfield)
+    /\ phase = "run" /\ wr[p] = "failed"
+    /\ wr' = [wr EXCEPT ![p] = "idle"]
+    /\ UNCHANGED <<cfg, disk, dirty, exist, phase, aidx, almiss, alexist, sec, wok, memKnown, memBit, dbKnown, dbBit, txn>>
 
 SetBit(p) ==       \* handlePieceWriteDone
     /\ phase = "run" /\ wr[p] = "written"
     /\ wr' = [wr EXCEPT ![p] = "idle"] /\ memBit' = memBit \cup {p}
-    /\ UNCHANGED <<cfg, disk, dirty, exist, phase, aidx, almiss, alexist, memKnown, dbKnown, dbBit, txn>>
+    /\ UNCHANGED <<cfg, disk, dirty, exist, phase, aidx, almiss, alexist, sec, wok, memKnown, dbKnown, dbBit, txn>>
 
 OsFlush(p) ==      \* the kernel writes back a dirty page some time
     /\ p \in dirty /\ dirty' = dirty \ {p} /\ disk' = [disk EXCEPT ![p] = "good"]
-    /\ UNCHANGED <<cfg, exist, phase, aidx, almiss, alexist, wr, memKnown, memBit, dbKnown, dbBit, txn>>
+    /\ UNCHANGED <<cfg, exist, phase, aidx, almiss, alexist, wr, sec, wok, memKnown, memBit, dbKnown, dbBit, txn>>
 
 \* --- persistence: periodic | stop | complete | verified - all write t.bitfield as it is now ---------
 PersistBegin ==
     /\ Up /\ memKnown /\ ~txn.active
     /\ txn' = [active |-> TRUE, known |-> TRUE, bits |-> memBit]
-    /\ UNCHANGED <<cfg, disk, dirty, exist, phase, aidx, almiss, alexist, wr, memKnown, memBit, dbKnown, dbBit>>
+    /\ UNCHANGED <<cfg, disk, dirty, exist, phase, aidx, almiss, alexist, wr, sec, wok, memKnown, memBit, dbKnown, dbBit>>
 
 PersistCommit ==
     /\ txn.active
     /\ dbKnown' = txn.known /\ dbBit' = txn.bits /\ txn' = NoTxn
-    /\ UNCHANGED <<cfg, disk, dirty, exist, phase, aidx, almiss, alexist, wr, memKnown, memBit>>
+    /\ UNCHANGED <<cfg, disk, dirty, exist, phase, aidx, almiss, alexist, wr, sec, wok, memKnown, memBit>>
 
 \* --- failure and environment ----------------------------------------------------
 Crash ==
     /\ Up
     /\ phase' = "down" /\ dirty' = {} /\ memKnown' = FALSE /\ memBit' = {} /\ aidx' = 0 /\ almiss' = FALSE /\ alexist' = FALSE
-    /\ wr' = [p \in Piece |-> "idle"] /\ txn' = NoTxn
+    /\ wr' = [p \in Piece |-> "idle"] /\ txn' = NoTxn /\ sec' = [p \in Piece |-> 0] /\ wok' = [p \in Piece |-> TRUE]
     /\ \/ UNCHANGED <<dbKnown, dbBit>>
        \/ txn.active /\ dbKnown' = txn.known /\ dbBit' = txn.bits
     /\ UNCHANGED <<cfg, disk, exist>>
@@ -171,11 +208,11 @@ DeleteFiles(F) ==
     /\ exist' = [f \in File |-> exist[f] /\ f \notin F]
     /\ disk' = [p \in Piece |-> IF cfg.fo[p] \cap F = {} THEN disk[p]
                                 ELSE IF \A f \in cfg.fo[p] : ~exist'[f] \/ disk[p] = "nil" THEN "nil" ELSE "partial"]
-    /\ UNCHANGED <<cfg, dirty, phase, aidx, almiss, alexist, wr, memKnown, memBit, dbKnown, dbBit, txn>>
+    /\ UNCHANGED <<cfg, dirty, phase, aidx, almiss, alexist, wr, sec, wok, memKnown, memBit, dbKnown, dbBit, txn>>
 
 Next ==
     \/ Restart \/ AllocInvalidate \/ AllocOpen \/ AllocDone \/ VerifyDone
-    \/ \E p \in Piece : WriteBegin(p) \/ WriteEnd(p) \/ SetBit(p) \/ OsFlush(p)
+    \/ \E p \in Piece : WriteBegin(p) \/ WriteSec(p) \/ WriteFail(p) \/ WriteEnd(p) \/ FailHandled(p) \/ SetBit(p) \/ OsFlush(p)
     \/ PersistBegin \/ PersistCommit \/ Crash
     \/ \E F \in SUBSET File : DeleteFiles(F)
 
@@ -196,6 +233,7 @@ InvMissing == (phase = "run" /\ memKnown /\ almiss) => \A p \in memBit : View(p)
 TypeOK ==
     /\ disk \in [Piece -> {"nil", "partial", "good"}] /\ dirty \subseteq Piece /\ exist \in [File -> BOOLEAN]
     /\ phase \in {"down", "alloc", "verify", "run"} /\ aidx \in 0 .. cfg.nf
-    /\ memBit \subseteq Piece /\ dbBit \subseteq Piece /\ wr \in [Piece -> {"idle", "writing", "written"}]
+    /\ memBit \subseteq Piece /\ dbBit \subseteq Piece /\ wr \in [Piece -> {"idle", "writing", "written", "failed"}]
+    /\ \A p \in Piece : sec[p] \in 0 .. NSec(p)
 Inv == TypeOK /\ InvDb /\ InvTrust /\ InvMissing
 =============================================================================
